@@ -1173,6 +1173,10 @@ fn read_code<C: CodeVisitor>(
 		code_visitor.visit_line_numbers(table)?;
 	}
 
+	if let Some(table) = local_variable_table {
+		code_visitor.visit_local_variables(table)?;
+	}
+
 	Ok(code_visitor)
 }
 
